@@ -11,6 +11,5 @@ CONSTANTS
   OriginIds = {"o1"}
   Limits = {1,2}
   Policies = {"default","completeness"}
-  SelfModes = {TRUE}
 INVARIANT HTypeOK Deadlines HandInv
 PROPERTY AnnounceStores
